@@ -34,4 +34,21 @@ CHECKS.update({
          "text": "raises ⊆ documented is proved for the lexer stage for all strings; that the compiled function is only called after graph construction succeeded is rule-checked; the remaining stages are exercised by every single-edit corruption of valid corpus calls (incl. solve_*), classifying an exception as documented only if an explicit raise inside einx produced it; certainly ill-formed calls must be rejected.",
          "note": P_NOTE + B_NOTE},
 })
+CHECKS.update({
+ "C07": {"level": "exploration", "technique": "relational postcondition short form == long form as a run-time contract on pairs of public calls (bounded); rule: the description string flows only into the parser",
+         "text": "Each of the twelve documented shorthand kinds is checked on hand-written (short, long) pairs taken from the documentation and on corpus-driven variants, on identical data, three backends; no unbounded part beyond the syntactic flow rule - bounded exploration.",
+         "note": B_NOTE + "The pair table itself is part of the trusted base (entries that do not exercise their shorthand make the check fail as a checker error)."},
+ "C08": {"level": "exploration", "technique": "relational postconditions between public calls (rename / permute / regroup / invert / compose) on a bounded corpus; repeated-axis bookkeeping proved for all ranks (shared kernel C01.P.diag)",
+         "text": "Relations are generated from one template per corpus case with equal axis lengths and 1s forced; only the diagonal kernel is unbounded - bounded exploration.",
+         "note": P_NOTE + B_NOTE + "Relations are not applied across '+' (block order is positional) or '...'."},
+ "C13": {"level": "other", "technique": "contracts on _call_tensorfactory/_assert_output as run-time contracts with recording factories (bounded); keyword-forwarding predicate decided completely over its finite domain; control-flow rule on api.inner",
+         "text": "use_parameter is evaluated on the real _call_tensorfactory for all 128 signature classes (complete); that the compiled function - the only holder of the concrete factory - runs only after the graph test is a syntactic rule; call counts, shapes, keywords, warm/cold equality and rejection of misbehaving outputs are bounded run-time contracts.",
+         "note": B_NOTE},
+ "C14": {"level": "other", "technique": "postcondition = explicit loop over all index combinations + frame (nothing else changes), evaluated as a run-time contract on a bounded update corpus",
+         "text": "No unbounded kernel is claimed for C14 in this version (the ravel arithmetic kernel of DESIGN §3 is not built); the explicit-loop postcondition is evaluated on update templates incl. duplicates, missing/extra axes, repeated bracket names and permuted update axes of equal length.",
+         "note": B_NOTE},
+ "C15": {"level": "exploration", "technique": "run-time contracts on the adapter entry points with argument-recording user functions (bounded); finite keyword-only predicate checked completely",
+         "text": "Values vs the loop interpreter with the same numpy function, call count, axis= argument, equal-rank broadcastable arguments, keyword-only forwarding across cache hits, name clashes and wrong outputs; adapt_with_vmap is NOT decided (no framework with vmap importable).",
+         "note": B_NOTE},
+})
 NOT_APPLICABLE = {}
